@@ -1459,4 +1459,116 @@ theorem awayOK_new_call {sr : Nat} {it : Item} : ∀ (mid : List Obs) (c : List 
       obtain ⟨b', hm⟩ := ih _ post hc h
       exact ⟨b', List.mem_cons_of_mem _ hm⟩
 
+/-! ## holding the consumer inside the last barrier's handler changes nothing -/
+
+theorem runFrom_acc : ∀ (as : List Act) (s : St) (acc : List Obs),
+    runFrom s acc as = ((runFrom s [] as).1, acc ++ (runFrom s [] as).2) := by
+  intro as
+  induction as with
+  | nil => intro s acc; simp [runFrom]
+  | cons a r ih =>
+    intro s acc
+    simp only [runFrom]
+    rw [ih (step s a).1 (acc ++ (step s a).2), ih (step s a).1 ([] ++ (step s a).2)]
+    simp [List.append_assoc]
+
+theorem runFrom_append : ∀ (l1 l2 : List Act) (s : St) (acc : List Obs),
+    runFrom s acc (l1 ++ l2) = runFrom (runFrom s acc l1).1 (runFrom s acc l1).2 l2 := by
+  intro l1
+  induction l1 with
+  | nil => intro l2 s acc; rfl
+  | cons a r ih => intro l2 s acc; simp only [List.cons_append, runFrom]; exact ih l2 _ _
+
+/-- the actions a held/resumed schedule stands for -/
+def HAct.bases : List HAct → List Act
+  | [] => []
+  | .base a :: r => a :: HAct.bases r
+  | _ :: r => HAct.bases r
+
+/-- **simulation**: every schedule with holds produces exactly the state and the trace of a schedule without
+holds whose actions are the original ones plus `go`s -/
+theorem hrun_sim : ∀ (has : List HAct) (h : HSt) (acc : List Obs),
+    ∃ as : List Act, (hrunFrom h acc has).1.s = (runFrom h.s acc as).1 ∧
+      (hrunFrom h acc has).2 = (runFrom h.s acc as).2 ∧
+      ∀ a ∈ as, a ∈ HAct.bases has ∨ ∃ x, a = Act.go x := by
+  intro has
+  induction has with
+  | nil => intro h acc; exact ⟨[], rfl, rfl, by intro a ha; cases ha⟩
+  | cons ha r ih =>
+    intro h acc
+    simp only [hrunFrom]
+    -- a step that leaves `s` untouched and emits nothing
+    have same : ∀ h' : HSt, h'.s = h.s → (∃ as : List Act, (hrunFrom h' (acc ++ []) r).1.s = (runFrom h.s acc as).1 ∧
+        (hrunFrom h' (acc ++ []) r).2 = (runFrom h.s acc as).2 ∧
+        ∀ a ∈ as, a ∈ HAct.bases (ha :: r) ∨ ∃ x, a = Act.go x) := by
+      intro h' hs
+      obtain ⟨as, e1, e2, e3⟩ := ih h' (acc ++ [])
+      refine ⟨as, by simpa [hs] using e1, by simpa [hs] using e2, ?_⟩
+      intro a hin
+      rcases e3 a hin with hb | hg
+      · left
+        cases ha <;> simp [HAct.bases, hb]
+      · exact Or.inr hg
+    -- a step that runs the plain actions `l` on `s`
+    have runs : ∀ (l : List Act) (h' : HSt), h'.s = (runFrom h.s [] l).1 →
+        (∀ a ∈ l, a ∈ HAct.bases (ha :: r) ∨ ∃ x, a = Act.go x) →
+        (∃ as : List Act, (hrunFrom h' (acc ++ (runFrom h.s [] l).2) r).1.s = (runFrom h.s acc as).1 ∧
+          (hrunFrom h' (acc ++ (runFrom h.s [] l).2) r).2 = (runFrom h.s acc as).2 ∧
+          ∀ a ∈ as, a ∈ HAct.bases (ha :: r) ∨ ∃ x, a = Act.go x) := by
+      intro l h' hs hl
+      obtain ⟨as, e1, e2, e3⟩ := ih h' (acc ++ (runFrom h.s [] l).2)
+      have hsplit : runFrom h.s acc (l ++ as) = runFrom h'.s (acc ++ (runFrom h.s [] l).2) as := by
+        rw [runFrom_append, runFrom_acc l h.s acc, hs]
+      refine ⟨l ++ as, by rw [hsplit]; exact e1, by rw [hsplit]; exact e2, ?_⟩
+      intro a hin
+      rcases List.mem_append.mp hin with h1 | h2
+      · exact hl a h1
+      · rcases e3 a h2 with hb | hg
+        · left
+          cases ha <;> simp [HAct.bases, hb]
+        · exact Or.inr hg
+    cases ha with
+    | base a =>
+      cases hh : h.held with
+      | none =>
+        have := runs [a] { h with s := (step h.s a).1 } (by simp [runFrom]) (by
+          intro b hb; simp at hb; subst hb; left; simp [HAct.bases])
+        simpa [hstep, hh, runFrom] using this
+      | some sr0 =>
+        cases a with
+        | go x =>
+          simp only [hstep, hh]
+          split
+          · exact same _ rfl
+          · exact same _ rfl
+        | align _ _ | tick | stale | armFail | redeploy =>
+          simp only [hstep, hh]
+          exact same _ rfl
+    | hold sr =>
+      cases hh : h.held with
+      | none =>
+        simp only [hstep, hh]
+        split
+        · exact same _ rfl
+        · have := runs [.go sr] { h with s := (step h.s (.go sr)).1 } (by simp [runFrom]) (by
+            intro b hb; simp at hb; subst hb; exact Or.inr ⟨sr, rfl⟩)
+          simpa [runFrom, hh] using this
+      | some _ =>
+        simp only [hstep, hh]
+        exact same _ rfl
+    | resume =>
+      cases hh : h.held with
+      | none =>
+        simp only [hstep, hh]
+        exact same _ rfl
+      | some sr0 =>
+        simp only [hstep, hh]
+        exact runs (.go sr0 :: h.queue.map .go) _ rfl (by
+          intro b hb
+          right
+          rcases List.mem_cons.mp hb with rfl | hb
+          · exact ⟨sr0, rfl⟩
+          · obtain ⟨x, _, rfl⟩ := List.mem_map.mp hb
+            exact ⟨x, rfl⟩)
+
 end Rxn.Align
